@@ -40,7 +40,7 @@ func pickLevel(r *rng.R) *DVal {
 	case 12:
 		return &DVal{V: Vnt{K: "i32", N: 3}}
 	default:
-		return &DVal{V: Vnt{K: "u8", N: int64(r.Pick(4, 5, 6, 0xfc, 0xfd, 0xfe, 0xff))}}
+		return &DVal{V: Vnt{K: "u8", N: int64(r.Pick(4, 5, 6, 0xfc, 0xfd, 0xfe, 0xff, 0x20, 0x21, 0x40, 0x41, 0x60, 0x61, 0x22, 0x42, 0x80, 0x10, 0x08))}}
 	}
 }
 
@@ -137,7 +137,14 @@ func genWrites(r *rng.R, nodes []NodeJ, ns uint16, hist int) []WV {
 				v = *l
 			}
 		}
-		wvs = append(wvs, WV{Node: pickTarget(r, nodes, ns, hist), Attr: uint32(a), Val: v})
+		wv := WV{Node: pickTarget(r, nodes, ns, hist), Attr: uint32(a), Val: v}
+		if r.Intn(3) == 0 { // every combination of status / source timestamp / picoseconds in the DataValue
+			wv.SrcTS, wv.Pico = r.Bool(), r.Bool()
+			if r.Bool() && wv.Val.S == 0 {
+				wv.Val.S = 0x40000000
+			}
+		}
+		wvs = append(wvs, wv)
 	}
 	return wvs
 }
@@ -333,7 +340,12 @@ func genBrowse(r *rng.R, nodes []NodeJ, ns uint16, hist int, s *sut) BDesc {
 	if dirHint >= 0 && r.Intn(5) > 0 {
 		dir = uint32(dirHint)
 	}
-	return BDesc{Node: node, Dir: dir, RefType: rt, Subtypes: r.Intn(3) > 0, Mask: mask}
+	bd := BDesc{Node: node, Dir: dir, RefType: rt, Subtypes: r.Intn(3) > 0, Mask: mask}
+	if r.Bool() { // which references come back must not depend on which of their fields the client wants to see
+		rm := uint32(r.Pick(0, 1, 2, 3, 4, 8, 12, 16, 32, 60, 63))
+		bd.RMask = &rm
+	}
+	return bd
 }
 
 func genRefs(r *rng.R, nodes []NodeJ, ns uint16) []RefJ {
@@ -384,6 +396,30 @@ func generate(r *rng.R, mode string, hist int, s *sut) History {
 	switch mode {
 	case "c31":
 		session(0, 0)
+		if hist%3 == 2 {
+			// StatusWrite (0x20) / TimestampWrite (0x40) without CurrentWrite (0x02): a value write stays refused whatever
+			// else the written DataValue carries
+			lvl := int64(r.Pick(0x21, 0x41, 0x61, 0x20, 0x40, 0x60, 0xfd))
+			v := DVal{V: Vnt{K: "u32", N: 31337}}
+			sw := NodeJ{ID: nidOf(ua.NewStringNodeID(ns, fmt.Sprintf("h%d_statuswrite", hist))), Val: "dv", ValDV: &v}
+			switch r.Intn(3) {
+			case 0:
+				sw.Attrs = []AttrJ{{17, DVal{V: Vnt{K: "u8", N: lvl}}}}
+			case 1:
+				sw.Attrs = []AttrJ{{18, DVal{V: Vnt{K: "u8", N: lvl}}}}
+			default:
+				sw.Attrs = []AttrJ{{17, DVal{V: Vnt{K: "u8", N: lvl}}}, {18, DVal{V: Vnt{K: "u8", N: lvl}}}}
+			}
+			h.Nodes = append(h.Nodes, sw)
+			for _, m := range [][3]bool{{false, false, false}, {true, false, false}, {false, true, false}, {false, false, true}, {true, true, true}, {false, true, true}} {
+				wv := WV{Node: sw.ID, Attr: 13, Val: DVal{V: Vnt{K: "u32", N: int64(r.Intn(1000))}}, SrcTS: m[1], Pico: m[2]}
+				if m[0] {
+					wv.Val.S = 0x40000000
+				}
+				add(Op{Kind: "write", Ch: 0, Tok: "s0", Writes: []WV{wv}})
+			}
+			add(Op{Kind: "read", Ch: 0, Tok: "s0", Reads: []RV{{Node: sw.ID, Attr: 13}}})
+		}
 		if hist%3 == 1 {
 			// data change notifications: a monitored node that may be written but not read must not tell its value
 			lv := func(n int64) DVal { return DVal{V: Vnt{K: "u8", N: n}} }
@@ -467,12 +503,34 @@ func generate(r *rng.R, mode string, hist int, s *sut) History {
 					if r.Intn(3) == 0 {
 						mask = uint32(r.Pick(1, 2, 4, 255))
 					}
-					bds = append(bds, BDesc{Node: nidOf(node), Dir: uint32(r.Pick(0, 0, 1, 2, 3)), RefType: nidOf(ua.NewNumericNodeID(0, rt)), Subtypes: r.Bool(), Mask: mask})
+					mb := BDesc{Node: nidOf(node), Dir: uint32(r.Pick(0, 0, 1, 2, 3)), RefType: nidOf(ua.NewNumericNodeID(0, rt)), Subtypes: r.Bool(), Mask: mask}
+					if r.Bool() {
+						rm := uint32(r.Pick(0, 3, 8, 12, 60, 63))
+						mb.RMask = &rm
+					}
+					bds = append(bds, mb)
 				}
 				add(Op{Kind: "browse", Ch: 0, Tok: "s0", Browses: bds, MapNS: true})
 			}
 		}
 	case "c32", "c35", "c29":
+		if mode == "c35" && hist%5 == 2 {
+			// a session that owns a subscription is closed while the monitored item tables are busy (the application reports a
+			// change of a node whose value callback is slow); the closed token is used again at once
+			v := DVal{V: Vnt{K: "u32", N: 5}}
+			slow := NodeJ{ID: nidOf(ua.NewStringNodeID(ns, fmt.Sprintf("h%d_slow", hist))), Val: "slow", ValDV: &v}
+			h.Nodes = append(h.Nodes, slow)
+			session(0, 0)
+			session(1, 1)
+			add(Op{Kind: "createsub", Ch: 0, Tok: "s0"})
+			add(Op{Kind: "createitems", Ch: 0, Tok: "s0", Sub: "sub0", Reads: []RV{{Node: slow.ID, Attr: 13}}})
+			add(Op{Kind: "appnotify", Ch: 1, Tok: "s1", Reads: []RV{{Node: slow.ID, Attr: 13}}})
+			add(Op{Kind: "closesession", Ch: 0, Tok: "s0", Chain: true})
+			add(Op{Kind: "read", Ch: r.Pick(0, 1), Tok: "s0", Reads: []RV{{Node: h.Nodes[0].ID, Attr: 13}}})
+			add(Op{Kind: "write", Ch: 0, Tok: "s0", Writes: []WV{{Node: h.Nodes[0].ID, Attr: 13, Val: v}}})
+			add(Op{Kind: "read", Ch: 1, Tok: "s1", Reads: []RV{{Node: h.Nodes[0].ID, Attr: 13}}})
+			return h
+		}
 		if mode == "c29" && hist%6 == 3 {
 			// notification storm: a monitored node keeps changing after its item / subscription is gone. Every write must
 			// still be answered (a stale item would feed the dead subscription's bounded notification queue).
@@ -625,6 +683,13 @@ func generate(r *rng.R, mode string, hist int, s *sut) History {
 			add(Op{Kind: "createsub", Ch: a, Tok: sa})
 			add(Op{Kind: "createsub", Ch: b, Tok: sb})
 			add(Op{Kind: "createsub", Ch: b, Tok: sb})
+			// an item on a node of a namespace the server does not have, between two ordinary ones; then more creates
+			valid := func() RV { return RV{Node: h.Nodes[r.Intn(len(h.Nodes))].ID, Attr: 13} }
+			nons := RV{Node: nidOf(ua.NewNumericNodeID(77, 5)), Attr: 13}
+			add(Op{Kind: "createitems", Ch: a, Tok: sa, Sub: x, Reads: []RV{valid(), nons, valid()}})
+			add(Op{Kind: "createitems", Ch: b, Tok: sb, Sub: y, Reads: []RV{valid()}})
+			add(Op{Kind: "createitems", Ch: a, Tok: sa, Sub: x, Reads: []RV{nons, valid(), nons}})
+			add(Op{Kind: "createitems", Ch: b, Tok: sb, Sub: z, Reads: []RV{valid(), valid()}})
 			one := func() []RV { return genReads(r, h.Nodes, ns, hist, 1)[:1] }
 			add(Op{Kind: "createitems", Ch: a, Tok: sa, Sub: x, Reads: one()}) // lastitem1: a's item
 			add(Op{Kind: "createitems", Ch: b, Tok: sb, Sub: y, Reads: one()}) // lastitem0: b's item
